@@ -33,7 +33,9 @@ def logical_to_raw(logical_color):
             360 - _EPSILON < logical_value < 360 + _EPSILON):
         h = 0.0
     else:
-        h = (logical_value % 360.0) / 360.0 * 65535.0
+        # "% 360", not "% 360.0": a whole number too large for a float to
+        # hold exactly is reduced exactly.
+        h = (logical_value % 360) / 360.0 * 65535.0
     s = _pct_to_raw(logical_color[1])
     b = _pct_to_raw(logical_color[2])
     return [h, s, b, logical_color[3]]
@@ -71,7 +73,7 @@ def raw_to_rgb(raw_color):
 def logical_to_rgb(logical_color):
     # Any angle is a hue: -90 is 270. colorsys expects 0 <= h < 1 and does not
     # wrap a negative one.
-    h = (logical_color[0] % 360.0) / 360.0
+    h = (logical_color[0] % 360) / 360.0
     s = logical_color[1] / 100.0
     v = logical_color[2] / 100.0
     r, g, b = colorsys.hsv_to_rgb(h, s, v)
